@@ -2,8 +2,8 @@ SPECIFICATION GSpec
 CONSTANTS Devs = {}
           Worlds <- MCWorlds
           CfgSet <- MCCfgs
-          D = 4
-          E = 4
-          GCases <- Cases16
+          D = 6
+          E = 6
+          GCases <- One16
           OpsMode = "c16"
 INVARIANTS Emit
